@@ -339,6 +339,72 @@ def wl_shared_style(ctx, rng, case_no):
                   {"segments": _items_json(items), "systems": [sys_a, sys_b]})
 
 
+def wl_derived_style(ctx, rng, case_no):
+    """Styles derived from styles that were ALREADY rendered: a style memoises its escape codes the first time it is
+    written, and everything made from it afterwards (a + b, Style.combine / chain, copy) has to carry codes of its own.
+    The right-hand operands lean towards the small ones a program adds on top of a theme style: only a link, only a
+    default background, only one attribute."""
+    from rich.segment import Segment
+    from rich.style import Style
+    from rv.model import textview as TV
+    w = S.pick_weights(rng)
+    system = rng.choice(["standard", "256", "truecolor", "windows"])
+    other = rng.choice(["standard", "256", "truecolor", "windows"])
+    bases = [G.rand_record(rng, p_fg=0.7, p_bg=0.6) for _ in range(rng.randint(1, 3))]
+    real = [G.build(r) for r in bases]
+    warm = rng.random() < 0.85
+    if warm:
+        for sys_ in ([system] if rng.random() < 0.7 else [other, system]):
+            c0 = make_console(sys_)
+            c0.print(SegList([Segment("warm", st) for st in real]), crop=False)
+    items, segs, routes = [], [], []
+    for _ in range(rng.randint(1, 6)):
+        i = rng.randrange(len(bases))
+        r = rng.random()
+        if r < 0.2:
+            add = {"attrs": {}, "fg": None, "bg": ("default",), "link": None}
+        elif r < 0.35:
+            add = {"attrs": {}, "fg": ("default",), "bg": None, "link": None}
+        elif r < 0.5:
+            add = {"attrs": {}, "fg": None, "bg": None, "link": G.rand_url(rng)}
+        elif r < 0.6:
+            add = {"attrs": {}, "fg": None, "bg": ("default",), "link": G.rand_url(rng)}
+        elif r < 0.7:
+            add = {"attrs": {rng.choice(G.ATTRS): rng.random() < 0.6}, "fg": None, "bg": None, "link": None}
+        elif r < 0.8:
+            add = {"attrs": {}, "fg": None, "bg": None, "link": None}
+        else:
+            add = G.rand_record(rng)
+        right = G.build(add)
+        route = rng.choice(["a+b", "a+b", "combine", "chain", "b+a", "copy+b"])
+        if route == "a+b":
+            st, rec = real[i] + right, TV.fold_records([bases[i], add])
+        elif route == "combine":
+            st, rec = Style.combine([real[i], right]), TV.fold_records([bases[i], add])
+        elif route == "chain":
+            st, rec = Style.chain(real[i], right), TV.fold_records([bases[i], add])
+        elif route == "b+a":
+            st, rec = right + real[i], TV.fold_records([add, bases[i]])
+        else:
+            st, rec = real[i].copy() + right, TV.fold_records([bases[i], add])
+        text = S.free_string(rng, rng.choice([1, 3, 8]), w, space=0.15, newline=0.0) or "x"
+        items.append(("text", text, rec))
+        segs.append(Segment(text, st))
+        routes.append(route)
+    for sys_ in (system, other):
+        cfg = (sys_, False, True, False)
+        console = make_console(sys_)
+        console.print(SegList(segs), crop=False)
+        stream = console.file.getvalue()
+        ctx.count("mon.derived_style")
+        wit = {"bases": [G.definition(b) for b in bases], "bases_rendered_before": warm, "routes": routes,
+               "segments": _items_json(items), "colour_system": sys_, "stream": stream}
+        if not check_stream(ctx, stream, items, cfg, wit, ":style-derived-from-a-rendered-style"):
+            break
+    ctx.case_done(("derived", repr(_items_json(items)), system, other, warm), warm,
+                  {"bases": [G.definition(b) for b in bases], "routes": routes, "systems": [system, other]})
+
+
 def wl_exhaustive(ctx):
     """Each attribute x {True, False} x each system; every pair of attributes; each colour kind as fg/bg."""
     cases = []
@@ -386,6 +452,7 @@ def workloads(tier):
             WL("segments", wl_segments, 1000000 if big else 120000),
             WL("printed_text", wl_text, 300000 if big else 40000),
             WL("shared_style", wl_shared_style, 200000 if big else 20000),
+            WL("derived_style", wl_derived_style, 200000 if big else 20000),
             WL("detected_terminal", wl_detected, 200000 if big else 20000)]
 
 
